@@ -181,6 +181,17 @@ def _register_agg():
 _register_agg()
 
 
+def _register_agginv():
+    """C12 (bld-inv): the aggregators whose state is an Inventory (SumAmount / SumPosition / SumInventory), left out of
+    group agg; spec and the store-slot method rule A10 in src_agginv.py"""
+    from . import src_agginv
+    GROUPS['agginv'] = ('SrcAggInv.v', src_agginv.spec_agginv,
+                        {'translator': src_agginv.AggInvGroup, 'prims': src_agginv.PRIMS})
+
+
+_register_agginv()
+
+
 def _register_compiler():
     """C05 (bld-compiler): groups lookup (types.function_lookup / _bases) and compiler (ORDER BY / GROUP BY / PIVOT BY
     resolution, the aggregate walk, operator overload selection); specs and translator rules in src_compiler.py"""
@@ -213,6 +224,25 @@ def _register_misc():
 
 
 _register_misc()
+
+
+def _register_semantics():
+    """C06 (bld-sem): group semantics (the methods of BQLSemantics, parser.parse, ParseError.__init__; src_semantics.py)"""
+    from . import src_semantics
+    src_semantics.register(GROUPS)
+
+
+_register_semantics()
+
+
+def _register_exprs():
+    """C04 (bld-compiler4): group exprs (Compiler._unaryop / _between / _inop / _binaryop / _function: overload selection,
+    implicit casts, constant folding); spec and translator rules X1-X6 in src_exprs.py"""
+    from . import src_exprs
+    src_exprs.register(GROUPS)
+
+
+_register_exprs()
 
 
 def generate(group):
